@@ -82,7 +82,9 @@ OPT_NAMES = {"int": [b"alg:iter", b"iterlim", b"maxit"], "int2": [b"alg:mode", b
              "wild": [b"lim:3:wt", b"limit_3_w", b"wt3"]}
 VALUES = {("int", 1): [b"5", b"+5", b"005"], ("int", 2): [b"-12", b"010"], ("int2", 1): [b"5", b"+5"], ("int2", 2): [b"-12", b"0"],
           ("dbl", 1): [b"2.5", b"2.50", b"+2.5"], ("dbl", 2): [b"-0.125", b"-.125", b"0.1"],
-          ("str", 1): [b"abc", b"'abc'", b'"abc"'], ("str", 2): [b"'a b'", b'"x=y z"', b"p/q.log", b"''"],
+          ("str", 1): [b"abc", b"'abc'", b'"abc"'], ("str", 2): [b"'a b'", b'"x=y z"', b"p/q.log", b"''",
+                          # a quoted value containing the other kind of quote
+                          b'"it\'s here.log"', b"'say \"hi\" twice'", b'"\'"', b"'a\"=b'"],
           ("wild", 1): [b"1.5"], ("wild", 2): [b"0.25", b".25"]}
 
 
